@@ -32,6 +32,7 @@ ApplyLbl(bk, l) ==
     [] l.op = "disable" -> DisableF(b0)
     [] l.op = "resettv" -> ResetTVolF(b0)
     [] l.op = "reload"  -> b0
+    [] l.op = "bad"     -> b0     \* a call that raises before reaching the book (PyView)
 
 \* the value a creation returns: the new id, or None when rejected
 RetOf(bk, l) ==
@@ -161,7 +162,11 @@ C03_WellFormed(bk) ==
     /\ t.agg # t.pas
     /\ ag.side = Opp(pa.side)
     /\ t.side = pa.side
-    /\ k > 1 => bk.trades[k - 1].t <= t.t
+
+\* execution order is time order as long as the clock is never moved backwards (the valid-history
+\* assumption of C03; an environment whose batch exceeds its step size moves it back itself, C05)
+C03_TimeOrdered(bk) ==
+  \A k \in 2..Len(bk.trades) : bk.trades[k - 1].t <= bk.trades[k].t
 
 \* both limits admit the trade price at the time of the trade: checked on the step
 C03_NewTradesAdmitted(old, new) ==
@@ -224,6 +229,7 @@ Redundant(old, lbl) ==
             [] lbl.k = "modify" -> ModKind(old, lbl.id, lbl.p, lbl.v) = "noop")
     [] lbl.op = "settime" -> TRUE
     [] lbl.op = "reload"  -> TRUE
+    [] lbl.op = "bad"     -> TRUE
     [] OTHER -> FALSE
 
 C04_NoOps(old, new, lbl) == Redundant(old, lbl) => NoClock(new) = NoClock(old)
